@@ -40,11 +40,11 @@ Example ex_derivative : map this (derivative_coeffs ex_kv 2 (map (fun z => q z 1
 Proof. vm_compute. reflexivity. Qed.
 
 (* the bounded float theorem is about a non-empty grid that contains [0,1] and [0.1,0.7] *)
-Example ex_grid : In (0, 1)%Q grid_all /\ In (1 # 10, 7 # 10)%Q grid_all /\ length grid_all = 266%nat.
+Example ex_grid : In (0, 1)%Q grid_all /\ In (1 # 10, 7 # 10)%Q grid_all /\ length grid_all = 16%nat.
 Proof.
   split; [|split; [|reflexivity]].
-  - change (0, 1)%Q with (nth 9 grid_all (0, 0)%Q). apply nth_In. rewrite grid_all_length. lia.
-  - change (1 # 10, 7 # 10)%Q with (nth 15 grid_all (0, 0)%Q). apply nth_In. rewrite grid_all_length. lia.
+  - change (0, 1)%Q with (nth 0 grid_all (0, 0)%Q). apply nth_In. rewrite grid_all_length. lia.
+  - change (1 # 10, 7 # 10)%Q with (nth 3 grid_all (0, 0)%Q). apply nth_In. rewrite grid_all_length. lia.
 Qed.
 Example ex_f_of_q : PrimFloat.eqb (f_of_q (1 # 10)) 0x1.999999999999ap-4%float = true
                     /\ PrimFloat.eqb (f_of_q (-37 # 10)) (-0x1.d99999999999ap+1)%float = true.
